@@ -7,8 +7,10 @@ namespace Swiftness.Proofs
 open Swiftness Fri FoldSpec
 attribute [-instance] Fin.instOfNat
 
-theorem cosetLoop_not_err (start : Felt) (m i : ℕ) (qs : List LayerQuery) (sibs : List Felt) (x : Felt)
-    (acc : List Felt) (e : String) : cosetLoop start m i qs sibs x acc ≠ .err e := by
+/-- the only error of `cosetLoop` is the exhausted sibling witness -/
+theorem cosetLoop_err (start : Felt) (m i : ℕ) (qs : List LayerQuery) (sibs : List Felt) (x : Felt)
+    (acc : List Felt) (e : String) (h : cosetLoop start m i qs sibs x acc = .err e) :
+    e = "SiblingWitnessTooShort" := by
   fun_induction cosetLoop start m i qs sibs x acc <;> simp_all
 
 theorem cosetLoop_queries_length (start : Felt) (m i : ℕ) (qs : List LayerQuery) (sibs : List Felt)
@@ -142,7 +144,8 @@ theorem nextLayerLoop_fuel (cs e : Felt) : ∀ (fuel : ℕ) (qs : List LayerQuer
           unfold cosetElements at hs
           split at hs
           · cases hs
-          · exact absurd hs (cosetLoop_not_err _ _ _ _ _ _ _ _)
+          · rw [cosetLoop_err _ _ _ _ _ _ _ _ hs]
+            intro h; injection h with h; revert h; decide
         · simp
 
 theorem computeNextLayer_fuel (qs : List LayerQuery) (sibs : List Felt) (cs e : Felt) :
